@@ -39,6 +39,13 @@ structure PPool where
   types    : List PType
   /-- keys of the template's `PreferNoSchedule` taints -/
   softTaints : List String := []
+  /-- `minValues` of the template's requirement on the instance-type key (0 = none): the NodePool asks that a NodeClaim
+      keeps at least that many instance types to choose from -/
+  minTypes : Nat := 0
+  /-- the operator runs with `MinValuesPolicy=BestEffort` (a cluster-wide option, the same on every pool of a pass):
+      `minValues` is then a wish — a pool that cannot offer that many types launches with what it has.  Under the
+      default `Strict` a NodeClaim with fewer options must not be created, so the pool cannot host the pod. -/
+  relaxMin : Bool := false
   /-- the status conditions stored on the NodePool, (type, status) with status "True" | "False" | "Unknown";
       `some []` = a NodePool that reports nothing yet -/
   conds    : Option (List (String × String)) := none
@@ -113,9 +120,14 @@ def canLaunchFor (p : PPool) (group : List PPod) (t : PType) (o : Offering) : Bo
 def optionsFor (p : PPool) (group : List PPod) : List PType :=
   p.types.filter (fun t => t.offerings.any (canLaunchFor p group t))
 
+/-- the pool's `minValues` leaves `group` a node: met by the instance types that can run the group, or waived by the
+    BestEffort policy -/
+def minValuesOk (p : PPool) (group : List PPod) : Bool :=
+  p.relaxMin || decide (p.minTypes ≤ (optionsFor p group).length)
+
 /-- pool `p` is able to host `group` on one new node -/
 def hosts (p : PPool) (group : List PPod) : Bool :=
-  poolUsable p && group.all (tolerates p) && !(optionsFor p group).isEmpty
+  poolUsable p && group.all (tolerates p) && !(optionsFor p group).isEmpty && minValuesOk p group
 
 /-- pool `p` is able to host `pod` on a new node, when the taint preferences are to be honoured (`strict`) or may be
     overridden (`!strict`).  Being able to host never depends on a preference: `hostsAt false p pod = hosts p [pod]`. -/
@@ -178,6 +190,8 @@ where
         let opts := (optionsFor p group).map toIType
         if !cheapestKeptSpec (claimReqs p group) maxTypes opts c.types then
           some s!"NodeClaim in {p.name} for {c.pods}: instance types {c.types} are not the {maxTypes} cheapest of the options {opts.map (·.name)}"
+        else if !p.relaxMin && decide (c.types.length < p.minTypes) then
+          some s!"NodeClaim in {p.name} for {c.pods} names {c.types.length} instance types, fewer than the NodePool's minValues {p.minTypes} (policy Strict)"
         else none
 
 /-- verdict on one pass -/
